@@ -174,7 +174,7 @@ func runCase(w *tr.W, impl string, ops []string) {
 		}
 		close(done)
 	}()
-	deadline := 10*time.Second + time.Duration(len(ops))*time.Millisecond
+	deadline := 2*time.Second + 2*time.Duration(len(ops))*time.Millisecond
 	timedOut := false
 	select {
 	case <-done:
